@@ -29,7 +29,7 @@ def run(out, tier, seed):
     # M level of the assignment rewrite (Xform.tla): TLC over every small statement shape, then the shapes for real -
     # an observable difference is known only if it is exactly what the rewrite model predicts
     from .. import xformcheck as XC
-    XC.run(out, tier, seed, {"Log", "Result", "Activation"}, ["tooled", "inplace", "singles", "all", "pairs"], 250 if tier == "quick" else 0)
+    XC.run(out, tier, seed, {"Log", "Result", "Activation"}, ["tooled", "inplace", "singles", "all", "pairs"], 250 if tier == "quick" else 0, pinned=True)
     out.extra.update({"programs": len(progs), "paths": len(traces), "instrumented_runs": nruns,
                       "forms": sorted({p["form"] for p in progs}), "contexts": sorted({p["ctx"] for p in progs}),
                       "rule": "IR families F1 (statement forms x contexts) and F6 (control-flow nests) plus random compositions; "
